@@ -38,6 +38,12 @@ func (node *tagIfchangedNode) Execute(ctx *ExecutionContext, writer TemplateWrit
 			// Rendered content changed, output it
 			writer.Write(bufBytes)
 			state.lastContent = bufBytes
+		} else if node.elseWrapper != nil && state.lastContent != nil {
+			// Unchanged: the else branch, as with watched expressions
+			err := node.elseWrapper.Execute(ctx, writer)
+			if err != nil {
+				return err
+			}
 		}
 	} else {
 		nowValues := make([]*Value, 0, len(node.watchedExpr))
@@ -53,6 +59,10 @@ func (node *tagIfchangedNode) Execute(ctx *ExecutionContext, writer TemplateWrit
 		changed := len(state.lastValues) == 0
 
 		for idx, oldVal := range state.lastValues {
+			if oldVal.IsNil() && nowValues[idx].IsNil() {
+				// nothing then, nothing now (EqualValueTo holds nil equal to nothing)
+				continue
+			}
 			if !oldVal.EqualValueTo(nowValues[idx]) {
 				changed = true
 				break // we can stop here because ONE value changed
